@@ -5,6 +5,9 @@ import Knee.Model.RdpM
 import Knee.Model.Filters
 import Knee.Model.PostM
 import Knee.Model.DetectM
+import Knee.Model.Metrics
+import Knee.Model.Geometry
+import Knee.Model.Hull
 /-
 Correspondence driver.  `lake env lean --run Driver.lean` (or the compiled `driver` exe).
 Harness → driver : `CALL <fn> <arg> <arg> …`
@@ -69,6 +72,11 @@ def detM (out inp : IO.FS.Stream) (kind : String) (mode : Refinement) (limit : N
     let d ← askRats out inp s!"dd {l} {r}"
     pure (kneedleKnee d)
   | _ => throw "unknown detector"
+
+def pt2 (s : String) : M P2 := do
+  match ← orErr (parseList? parseRat? s) "point" with
+  | [a, b] => pure (a, b)
+  | _ => throw "point needs two coordinates"
 
 def dispatch (out inp : IO.FS.Stream) (fn : String) (args : List String) : M String := do
   match fn, args with
@@ -182,6 +190,51 @@ def dispatch (out inp : IO.FS.Stream) (fn : String) (args : List String) : M Str
     match r with
     | some ks => pure (showNats ks)
     | none => pure "none"
+  | "metric", [name, y, yh] =>
+    let y ← orErr (parseList? parseRat? y) "y"
+    let yh ← orErr (parseList? parseRat? yh) "yh"
+    match name with
+    | "rss" => pure (showRat (rssQ y yh))
+    | "r2" => pure (showRat (r2Q y yh))
+    | "r2adj" => pure (showRat (adjustQ y.length (r2Q y yh)))
+    | "mse" => pure (showRat (mseQ y yh))
+    | "rmspeSq" => pure (showRat (rmspeSq y yh))
+    | "rpd" => pure (showRat (rpdQ y yh))
+    | "smape" => pure (showRat (smapeQ y yh))
+    | "corrSq" => pure (showRat (corrSqQ y yh))
+    | "corrSqAdj" => pure (showRat (adjustQ y.length (corrSqQ y yh)))
+    | "fit" => let c := fitQ y yh; pure (showRat c.1 ++ " " ++ showRat c.2)
+    | _ => throw "unknown metric"
+  | "geom", [name, p, a, b] =>
+    let p ← pt2 p
+    let a ← pt2 a
+    let b ← pt2 b
+    match name with
+    | "shortestSq" => pure (showRat (shortestSq p a b))
+    | "perpSq" => pure (showRat (perpSq p a b))
+    | "mengerSq" => pure (showRat (mengerSq p a b))
+    | "triArea" => pure (showRat (triArea p a b))
+    | "cornerIoU" => pure (showRat (cornerIoU p a b))
+    | "ccw" => pure (showRat (ccw p a b))
+    | _ => throw "unknown geom"
+  | "iou", [amin, amax, bmin, bmax] =>
+    let amin ← pt2 amin
+    let amax ← pt2 amax
+    let bmin ← pt2 bmin
+    let bmax ← pt2 bmax
+    pure (showRat (rectOverlap amin amax bmin bmax))
+  | "rank", [v] =>
+    let v ← orErr (parseList? parseRat? v) "v"
+    pure (showNats (rankOf v))
+  | "hull", [which, xs, ys] =>
+    let xs ← orErr (parseList? parseRat? xs) "xs"
+    let ys ← orErr (parseList? parseRat? ys) "ys"
+    let pt := fun i => (xs[i]?.getD 0, ys[i]?.getD 0)
+    match which with
+    | "lower" => pure (showNats (hullLower pt xs.length))
+    | "upper" => pure (showNats (hullUpper pt xs.length))
+    | "graham" => pure (showNats (grahamScan (xs.zip ys)))
+    | _ => throw "unknown hull"
   | _, _ => throw s!"unknown call {fn}/{args.length}"
 
 partial def loop (out inp : IO.FS.Stream) : IO Unit := do
